@@ -17,8 +17,55 @@ def cls(msg):
 
 
 # ------------------------------------------------------------------ C06
+def gen_c06_matgrow(rnd, tier, k):
+    """Aimed at the column-major store: every step appends a column (which then lies last in the used area) and a row that lists
+    that column first and touches a few older columns, which have to be relocated.  The free space at the end of the store is
+    thereby walked down through all residues again and again (each exhaustion triggers a re-allocation), so that the
+    `exactly enough room` / `one slot short` boundaries of the in-place and relocating paths are hit many times."""
+    nm = gen_hist.Namer()
+    m = gen_hist.base_lp(rnd, 3)
+    L = model.script_any(m, "p0", rnd)
+    n = rnd.randint(90, 160) if tier == "quick" else rnd.randint(150, 500)
+    for t in range(n):
+        nr = m.nrows
+        ents = gen_hist.ents(rnd, nr, maxn=rnd.choice([0, 1, 2, 5]))
+        lo, up = gen_hist.bounds(rnd)
+        ops = [("add_col", gen_hist.val(rnd), lo, up, nm.col(rnd), ents)] if rnd.random() < 0.8 else \
+              [("new_col", gen_hist.val(rnd), lo, up, nm.col(rnd))]
+        m.apply(ops[0])
+        newj = m.ncols - 1
+        others = rnd.sample(range(newj), min(newj, rnd.randint(1, 6)))
+        if rnd.random() < 0.85:
+            cols = [newj] + others
+        else:
+            cols = others + [newj]
+        rowents = [(j, gen_hist.val(rnd, nz=True)) for j in cols]
+        sense = rnd.choice("LGE")
+        ops.append(("add_row", gen_hist.val(rnd), sense, nm.row(rnd), rowents))
+        m.apply(ops[1])
+        if rnd.random() < 0.15 and m.nrows > 3:
+            op = ("delete_row", rnd.randrange(m.nrows))
+            m.apply(op)
+            ops.append(op)
+        if rnd.random() < 0.1 and m.ncols > 3:
+            j = rnd.randrange(m.ncols)
+            i = rnd.randrange(m.nrows)
+            op = ("change_coef", i, j, gen_hist.val(rnd, nz=True))
+            m.apply(op)
+            ops.append(op)
+        for op in ops:
+            L.append(render(op))
+        if t % 10 == 9:
+            L.append("dump p0")
+            L.append("storecheck p0")
+    L += ["dump p0", "storecheck p0"]
+    return run.Case("C06-matgrow-%d" % k, L, dict(stream="matgrow", k=k))
+
+
 def gen_c06(tier, seed, stream, k):
     rnd = run.rng("C06", tier, seed, stream, k)
+    if stream == "matgrow":
+        return gen_c06_matgrow(rnd, tier, k)
     nm = gen_hist.Namer()
     if stream == "long":
         m = gen_hist.base_lp(rnd, rnd.choice([2, 3]))
@@ -354,7 +401,7 @@ def chunk(payload):
     try:
         gen = gen_c06 if prop == "C06" else gen_c05
         cases = [gen(tier, seed, stream, k) for k in range(start, start + count)]
-        res = run.run_cases(os.path.join(bindir, "qsdrive"), cases, wd, batch=8 if stream != "long" else 1, timeout=600)
+        res = run.run_cases(os.path.join(bindir, "qsdrive"), cases, wd, batch=8 if stream not in ("long", "matgrow") else 1, timeout=600)
         for c in cases:
             r = res[c.id]
             if prop == "C06":
@@ -390,7 +437,7 @@ RULES = {
 def plan(prop, tier):
     q = tier == "quick"
     if prop == "C06":
-        return [("short", 4000 if q else 60000), ("long", 96 if q else 1500)]
+        return [("short", 4000 if q else 60000), ("long", 96 if q else 1500), ("matgrow", 160 if q else 4000)]
     return [("rand", 200 if q else 5000), ("pattern", 40 if q else 600), ("warm", 150 if q else 4000), ("basisload", 100 if q else 3000)]
 
 
@@ -401,7 +448,7 @@ def run_check(prop, tier, seed):
                        "explicit zeros stored by change_coef(...,0) are tolerated in extractions (not part of the mathematical problem)"]
     payloads = []
     for stream, n in plan(prop, tier):
-        step = (2 if stream == "long" else (40 if prop == "C06" else 5))
+        step = (2 if stream == "long" else (4 if stream == "matgrow" else (40 if prop == "C06" else 5)))
         for s in range(0, n, step):
             payloads.append(dict(prop=prop, tier=tier, seed=seed, stream=stream, start=s, count=min(step, n - s), bindir=b["asan"]))
     payloads.sort(key=lambda p: 0 if p["stream"] == "long" else 1)
